@@ -13,8 +13,9 @@
       the raw text of the compiled template, in order, is the source with its
       tag spans deleted and the escapes resolved; if moreover the tags write
       nothing when rendered, that is the rendered output.
-   Not proved here: the same with blocks (bodies in document order) and with
-   the `~` / standalone trims of Props/C11.v applied. *)
+   The same with blocks (bodies in document order), and — for every source,
+   with the `~` / standalone trims of Props/C11.v firing — conservation up to
+   the whitespace they remove, are Props/C03_blocks.v. *)
 From Coq Require Import List NArith Bool.
 From HB Require Import Base.Str Peg.Peg Peg.Grammar Tpl.Ast Tpl.Compile Spec.AlignedSpec Spec.WsSpec
   Spec.WfTokens Spec.StripTags Rt.State Rt.Eval Rt.Render Proofs.Conservation.
